@@ -1048,6 +1048,38 @@ func runRows(e *core.Env, prop string) error {
 		}
 	}
 	if prop == "C12" {
+		// a LONG address list (token lists run to thousands of contracts): every declared address is part of the
+		// restriction sent to the source, so a log of the last one is still returned by eth_getLogs
+		var args []string
+		var last []byte
+		for i := 0; i < 1003; i++ {
+			last = simnode.Derive("manyaddr", uint64(i))[:20]
+			args = append(args, "0x"+hex.EncodeToString(last))
+		}
+		ig, _, err := buildIG("igmany", "tmany", []string{"log_addr"}, &transferEvent, transferCols, "and", func(ci *config.Integration) {
+			for j := range ci.Block {
+				if ci.Block[j].Name == "log_addr" {
+					ci.Block[j].Filter = dig.Filter{Op: "contains", Arg: args}
+				}
+			}
+		})
+		verdict := "ok"
+		if err != nil {
+			verdict = "config-rejected: " + err.Error()
+		} else {
+			fl := ig.Filter()
+			pushed := fl.Addresses()
+			in := len(pushed) == 0
+			for _, a := range pushed {
+				in = in || strings.EqualFold(strings.TrimPrefix(a, "0x"), hex.EncodeToString(last))
+			}
+			if !in {
+				verdict = fmt.Sprintf("the filter lists %d addresses and accepts logs of the last one, eth_getLogs is restricted to %d addresses without it", len(args), len(pushed))
+			}
+		}
+		e.Add(core.Case{Impl: verdict, Spec: "ok", Key: "c12-many-addresses", Nontrivial: true, Tags: []string{"pushdown-oracle", "long-address-list"}})
+	}
+	if prop == "C12" {
 		// the operator x argument-list grid on a byte-string value (deterministic: every run has every cell):
 		// one / several arguments, the value among them first, last or not at all; the reference verdict is
 		// computed here (eq: some argument equals; ne: none equals; contains: some argument occurs in the value;
